@@ -66,6 +66,10 @@ structure ModSrc where
   faults : List (Stage × Nat) := []   -- injected failures: the stage fails with this LY_ERR whenever it is reached
   badAmend : List (Bytes × Nat) := [] -- injected: an augment / deviation of this module whose target node does not exist in the
                                       -- named import: `lys_compile` of THAT module fails while this one is in its augmented_by / deviated_by
+  subNames : List Bytes := []         -- names of the included submodules, in include order (yang-library `submodule` list)
+  nodes : List Bytes := []            -- top-level data nodes of the compiled module, in order (main module, then submodules)
+  augTargets : List (Bytes × Bytes) := []   -- per `augment` statement: (import name, top-level node of that module it descends into)
+  devTargets : List (Bytes × Bytes) := []   -- per `deviation` statement, likewise
 deriving DecidableEq, Repr, Inhabited
 
 def ModSrc.fault (m : ModSrc) (st : Stage) : Option Nat := (m.faults.find? (fun f => f.1 == st)).map (·.2)
@@ -82,6 +86,9 @@ structure Desc where
   augBy : List Bytes                  -- names, sorted (the print does not depend on the order of `augmented_by`)
   devBy : List Bytes                  -- names, sorted (each deviation touches a node of its own)
   grp : List (Bytes × List Bytes)     -- enabled features of the modules whose grouping is used
+  nodes : List (Bytes × List Bytes × List Bytes) := []
+                                      -- the compiled top-level data nodes, in order: (name, modules whose augments were compiled
+                                      -- into it, modules whose deviations were applied below it), both sorted
 deriving DecidableEq, Repr, Inhabited
 
 /-- `lys_module.latest_revision` bits -/
@@ -291,6 +298,13 @@ def sortKeys (l : List MKey) : List MKey := l.foldr insertSorted []
 
 def Mod.impKey (m : Mod) (name : Bytes) : Option MKey := m.impRes.find? (fun k => k.1 == name)
 
+/-- the modules of `refs` (an `augmented_by` / `deviated_by` array of `m`) that have a statement descending into the top-level
+    node `n` of `m`: what `lys_compile_node` applies while it compiles that node (`lysc_ctx.augs` / `.devs`) -/
+def Ctx.amendersOf (s : Ctx) (m : Mod) (refs : List MKey) (isAug : Bool) (n : Bytes) : List Bytes :=
+  ((sortKeys refs).filter fun a => match s.find a with
+    | some am => (if isAug then am.src.augTargets else am.src.devTargets).any fun t => t.2 == n && am.impKey t.1 == some m.key
+    | none => false).map (·.1)
+
 def Ctx.descOf (s : Ctx) (m : Mod) : Desc :=
   if m.src.hasData then
     { feats := m.enabledNames, augBy := (sortKeys m.augBy).map (·.1), devBy := (sortKeys m.devBy).map (·.1),
@@ -298,7 +312,8 @@ def Ctx.descOf (s : Ctx) (m : Mod) : Desc :=
         | none => none
         | some k => match s.find k with
           | none => none
-          | some t => some (k.1, (t.feats.filter (·.on)).map (·.name)) }
+          | some t => some (k.1, (t.feats.filter (·.on)).map (·.name)),
+      nodes := m.src.nodes.map fun n => (n, s.amendersOf m m.augBy true n, s.amendersOf m m.devBy false n) }
   else { feats := [], augBy := [], devBy := [], grp := [] }
 
 def installCompiled (k : MKey) (s : Ctx) : Ctx :=
